@@ -103,6 +103,24 @@ def readback(ctx, tool, game, mapfile, sigkey, replay, msg_mode=None):
     if not c.get('ok'):
         ctx.violation('narrowing:%s:written-file-unreadable' % sigkey, 'truth cannot read back the file it wrote: %s' % core.norm_msg(core.headline(c.get('diag', '')))[:200], replay); return False
     ctx.count('readback_ok')
+    # "what is read back equals what was requested": the text truth reads back from its own file must denote that same file
+    # (unless decompile itself warned about a loss)
+    if [w for w in core.warnings_of(c.get('diag', '')) if 'were decompiled to byte blobs' not in w]: ctx.count('readback_loss_warning'); return True
+    out2 = os.path.join(ctx.dir, 'c03.re')
+    if os.path.exists(out2): os.unlink(out2)
+    job2 = {'tool': tool, 'cmd': 'compile', 'game': game, 'in': job['out'], 'out': out2}
+    if mapfile: job2['maps'] = [os.path.join(ctx.dir, 'c03.map')]
+    if msg_mode: job2['msg_mode'] = msg_mode
+    if tool == 'anm': job2['images'] = [out]
+    c2 = ctx.cli(job2)
+    if 'panic' in c2 or 'abort' in c2: ctx.inconcl('recompile crash (C04)'); return False
+    if not c2.get('ok'):
+        ctx.violation('narrowing:%s:read-back-differs' % sigkey, 'the text truth reads back from the file it wrote is rejected: %s' % core.norm_msg(core.headline(c2.get('diag', '')))[:200],
+                      dict(replay, read_back=(ctx.read(job['out']) or b'').decode('utf-8', 'replace')[-1500:])); return False
+    if ctx.read(out2) != ctx.read(out):
+        ctx.violation('narrowing:%s:read-back-differs' % sigkey, 'the text truth reads back from the file it wrote compiles to different bytes',
+                      dict(replay, read_back=(ctx.read(job['out']) or b'').decode('utf-8', 'replace')[-1500:])); return False
+    ctx.count('readback_recompiles_identically')
     return True
 
 def judge_field(ctx, field, game, bits, v, stored, replay, signed_only=False, unsigned_only=False):
@@ -147,7 +165,8 @@ def instr_case(ctx, r):
     elif what == 'mask':
         bits = lg['mask_bits']; v = r.pick(boundary_values(r, bits)); pseudo = '@mask=%d, ' % v
     elif what == 'arg0':
-        bits = lg['extra_bits']; v = r.pick(boundary_values(r, bits)); pseudo = '@arg0=%d, ' % v
+        bits = lg['extra_bits']; v = r.pick(boundary_values(r, bits) + [4, 4, 3, 5]); pseudo = '@arg0=%d, ' % v
+        if r.chance(0.3): body_time = r.pick([-1, -1, 0, -2])        # (time -1 with first argument 4 is how a TH06/07 timeline ends)
     elif what == 'pop':
         bits = 8; v = r.pick(boundary_values(r, bits)); pseudo = '@pop=%d, ' % v
     elif what == 'argc':
@@ -241,7 +260,7 @@ def instr_case(ctx, r):
     if not judge_field(ctx, field, game, bits, v, stored, replay): return
     # the rest of the instruction is intact
     if what != 'opcode' and i0.opcode != op: ctx.violation('narrowing:%s:other-field-damaged' % field, 'opcode %d became %d' % (op, i0.opcode), replay); return
-    if what != 'time' and i0.time != 5: ctx.violation('narrowing:%s:other-field-damaged' % field, 'time 5 became %d' % i0.time, replay); return
+    if what != 'time' and i0.time != body_time: ctx.violation('narrowing:%s:other-field-damaged' % field, 'time %d became %d' % (body_time, i0.time), replay); return
     if what == 'time' and ins[1].time != v + 1 and -(1 << (bits - 1)) <= v + 1 < (1 << (bits - 1)):
         ctx.violation('narrowing:%s:relative-label' % field, 'label +1 after %d gives time %d' % (v, ins[1].time), replay); return
     if what not in ('arg',) and int.from_bytes(i0.blob[:4], 'little') != 7: ctx.violation('narrowing:%s:other-field-damaged' % field, 'argument 7 became %s' % i0.blob[:4].hex(), replay); return
@@ -265,6 +284,24 @@ def meta_case(ctx, r):
         tool, parse = 'anm', L.parse_anm
         get = {'sprite_id': lambda p: p[0]['sprites'][0]['id'], 'script_id': lambda p: u(p[0]['scripts'][0]['id'], 32)}.get(f, lambda p: p[0]['header'][f])
         field = 'anm.%s:%s' % (f, 'v7+' if new else 'v0-4')
+    elif k == 'anm-img' and r.chance(0.12):
+        # a header field that this version of the format has no room for: a non-zero request cannot be stored, so it must be refused
+        game = r.pick(ANM_GAMES); new = L.ANM_VERSION[game] >= 7
+        f = 'colorkey' if new else r.pick(['offset_x', 'offset_y', 'low_res_scale'])
+        v = r.pick([0, 1, 5, 255]) if f != 'low_res_scale' else r.pick([0, 1])
+        text = anm_entry(game, **{f: ('true' if v else 'false') if f == 'low_res_scale' else str(v)}) + 'script s0 { }\n'
+        field = 'anm.%s:%s:absent-field' % (f, 'v7+' if new else 'v0-4')
+        replay = {'field': field, 'game': game, 'text': text}
+        res = compile_and_parse(ctx, 'anm', game, text, None, L.parse_anm, replay)
+        if res is None: return
+        ctx.seen('fields', field)
+        if res[0] == 'rejected':
+            if v == 0: ctx.violation('narrowing:%s:rejects-zero' % field, 'a zero value needs no room, but: %s' % core.norm_msg(core.headline(res[1]))[:100], replay)
+            else: ctx.count('rejected_with_diagnostic')
+            return
+        if v != 0: ctx.violation('narrowing:%s:dropped-silently' % field, '%s = %d was accepted although this format version cannot store it' % (f, v), replay); return
+        ctx.count('accepted_and_verified'); readback(ctx, 'anm', game, None, field, replay)
+        return
     elif k == 'anm-img' and r.chance(0.15):
         # virtual files: whatever is accepted must be readable again
         game = r.pick(ANM_GAMES)
